@@ -22,6 +22,7 @@ pub mod c16;
 pub mod c17;
 pub mod c18;
 pub mod c19;
+pub mod c20;
 pub mod smoke;
 
 pub fn run(id: &str, tier: Tier) -> i32 {
@@ -45,6 +46,7 @@ pub fn run(id: &str, tier: Tier) -> i32 {
         "C17" => c17::run(tier),
         "C18" => c18::run(tier),
         "C19" => c19::run(tier),
+        "C20" => c20::run(tier),
         "SMOKE" => smoke::run(),
         _ => {
             eprintln!("harness error: no check for {id}");
@@ -74,6 +76,7 @@ pub fn replay(id: &str, file: &Path) -> i32 {
         "C17" => c17::replay_file(file),
         "C18" => c18::replay(file),
         "C19" => c19::replay(file),
+        "C20" => c20::replay(file),
         _ => {
             eprintln!("harness error: no check for {id}");
             2
